@@ -32,7 +32,7 @@ ASSUMPTIONS = ["vf/refmodel/gates.py catalogue matrices are the specification of
                "tolerance 1e-7 (relative to the largest entry) on complex128 matrices, 5e-5 on complex64 expectation values"]
 MIN_EVAL = {"mul==matrix-product": 4000, "conjugation==C^dag.P.C": 2000, "dense-mul==matrix-product": 2000,
             "expectation==<psi|P|psi>": 100, "expectation==tr(rho.P)": 100, "simulate_expectation_values": 20,
-            "phasor-unitary==closed-form": 100, "pauli-sum-arith==matrix": 200}
+            "phasor-unitary==closed-form": 100, "pauli-sum-arith==matrix": 200, "sampled-observable==<psi|P|psi>": 100}
 MUST_REACH = [
     "cirq/ops/pauli_string.py:PauliString.__mul__", "cirq/ops/pauli_string.py:PauliString.__rmul__",
     "cirq/ops/pauli_string.py:PauliString.__pow__", "cirq/ops/pauli_string.py:MutablePauliString._imul_helper",
@@ -1537,6 +1537,118 @@ def teardown(ctx):
     ctx.extra["exhaustive_two_qubit_cliffords"] = bool(ctx.tier == "thorough" and full("cliff2_enum"))
     ctx.extra["exhaustive"] = bool(ctx.extra["exhaustive_small_pauli_pairs"] and ctx.extra["exhaustive_single_qubit_cliffords"])
 
+# ------------------------------------------------------------------------------------------------ sampled observables
+_PM = {"I": np.eye(2, dtype=complex), "X": np.array([[0, 1], [1, 0]], dtype=complex),
+       "Y": np.array([[0, -1j], [1j, 0]], dtype=complex), "Z": np.array([[1, 0], [0, -1]], dtype=complex)}
+
+
+def _kron_all(ms):
+    out = np.eye(1, dtype=complex)
+    for m in ms:
+        out = np.kron(out, m)
+    return out
+
+
+def sec_observables(ctx, rng, case):
+    """cirq.work.measure_observables on a noiseless sampler: for a state that is an eigenstate of every requested Pauli
+    string each shot is deterministic, so the reported mean must be exactly <psi|P|psi> (numpy), for every grouping, with
+    and without readout symmetrisation, and with variance 0."""
+    cirq = _S["cirq"]
+    from cirq.work import observable_measurement as OM
+
+    n = int(rng.integers(1, 5))
+    qs = [cirq.LineQubit(i) for i in range(n)] if rng.random() < 0.6 else [cirq.GridQubit(0, i) for i in range(n)]
+    kind = "product" if (n == 1 or rng.random() < 0.65) else "ghz"
+    H = np.array([[1, 1], [1, -1]], dtype=complex) / math.sqrt(2)
+    S = np.diag([1, 1j]).astype(complex)
+    ops, psi = [], None
+    if kind == "product":
+        bases = [str(rng.choice(["X", "Y", "Z"])) for _ in range(n)]
+        signs = [int(rng.choice([1, -1])) for _ in range(n)]
+        vecs = []
+        for q, b, sg in zip(qs, bases, signs):
+            v = np.array([1, 0], dtype=complex)
+            if sg < 0:
+                ops.append(cirq.X(q))
+                v = _PM["X"] @ v
+            if b in ("X", "Y"):
+                ops.append(cirq.H(q))
+                v = H @ v
+            if b == "Y":
+                ops.append(cirq.S(q))
+                v = S @ v
+            vecs.append(v)
+        psi = vecs[0]
+        for v in vecs[1:]:
+            psi = np.kron(psi, v)
+        allowed = [("I", b) for b in bases]
+    else:
+        # GHZ state with local Clifford frame changes; observables are drawn from all Pauli strings and kept when the
+        # numpy state is an eigenvector
+        ops.append(cirq.H(qs[0]))
+        for i in range(1, n):
+            ops.append(cirq.CNOT(qs[0], qs[i]))
+        psi = np.zeros(2 ** n, dtype=complex)
+        psi[0] = psi[-1] = 1 / math.sqrt(2)
+        for i, q in enumerate(qs):
+            r = rng.random()
+            loc = None
+            if r < 0.25:
+                ops.append(cirq.S(q))
+                loc = S
+            elif r < 0.5:
+                ops.append(cirq.H(q))
+                loc = H
+            if loc is not None:
+                psi = _kron_all([loc if j == i else _PM["I"] for j in range(n)]) @ psi
+        allowed = [("I", "X", "Y", "Z")] * n
+    circuit = cirq.Circuit(ops)
+    want, observables, strings = [], [], []
+    target = int(rng.integers(1, 6))
+    for _ in range(60):
+        if len(observables) >= target:
+            break
+        letters = [str(a[int(rng.integers(len(a)))]) for a in allowed]
+        if all(c == "I" for c in letters) or any("".join(letters) == l_ for l_, _ in strings):
+            continue
+        ev = complex(np.vdot(psi, _kron_all([_PM[c] for c in letters]) @ psi))
+        if abs(abs(ev) - 1) > 1e-9:
+            continue  # not an eigenstate: the sampled mean would be statistical
+        coef = float(rng.choice([1.0, 1.0, -1.0, 0.5, -2.25]))
+        pstr = cirq.PauliString({q: {"X": cirq.X, "Y": cirq.Y, "Z": cirq.Z}[c] for q, c in zip(qs, letters) if c != "I"}, coefficient=coef)
+        observables.append(pstr)
+        strings.append(("".join(letters), coef))
+        want.append(coef * ev.real)
+    if not observables:
+        ctx.reject("no-eigen-observable")
+        return
+    sym = bool(rng.random() < 0.5)
+    reps = int(rng.choice([1, 2, 7, 16]))
+    one_each = rng.random() < 0.4
+    # own grouping: every observable measured alone (the group key is the setting with the coefficient stripped, as documented)
+    grouper = (lambda settings: {type(s_)(s_.init_state, s_.observable.with_coefficient(1.0)): [s_] for s_ in settings}) if one_each else "greedy"
+    wit = dict(kind=kind, n=n, observables=strings, readout_symmetrization=sym, repetitions=reps,
+               grouper="one-group-per-observable" if one_each else "greedy", circuit=repr(circuit)[:600])
+    res = OM.measure_observables(circuit, observables, cirq.Simulator(seed=int(rng.integers(1 << 30))),
+                                 stopping_criteria=OM.RepetitionsStoppingCriteria(total_repetitions=reps),
+                                 readout_symmetrization=sym, grouper=grouper)
+    ctx.check(len(res) == len(observables), "sampled-observable==<psi|P|psi>", "C14:measure-observables-count", "", **wit)
+    by_obs = {}
+    for r_ in res:  # (the order of the returned list follows the groups, not the input)
+        by_obs.setdefault(r_.setting.observable, []).append(r_)
+    for pstr, w_, (letters, coef) in zip(observables, want, strings):
+        hits = by_obs.get(pstr, [])
+        if not ctx.check(len(hits) == 1, "sampled-observable==<psi|P|psi>", "C14:measure-observables-missing-result",
+                         "%d results for %s*%s" % (len(hits), coef, letters), **wit):
+            continue
+        r_ = hits[0]
+        ctx.check(abs(r_.mean - w_) <= 1e-9, "sampled-observable==<psi|P|psi>", "C14:measure-observables-mean",
+                  "measure_observables reports %r for %s*%s on an eigenstate, exact value %r" % (r_.mean, coef, letters, w_), observable=letters, **wit)
+        ctx.check(r_.variance <= 1e-9 or r_.repetitions <= 1, "sampled-observable==<psi|P|psi>", "C14:measure-observables-variance",
+                  "variance %r of a deterministic outcome" % (r_.variance,), observable=letters, **wit)
+    ctx.distinct((kind, tuple(strings), sym, reps, wit["grouper"]), nontrivial=True)
+    ctx.sample({"kind": kind, "observables": strings, "sym": sym, "means": [float(r_.mean) for r_ in res]})
+
 
 # (name, function, quick cases, thorough cases, share of the time budget); the weights follow the measured cost
 # per case so that the exhaustive sections are never truncated (measured on an idle machine: quick ~18 s, thorough ~400 s of work per shard); the exhaustive sections come
@@ -1560,4 +1672,5 @@ SECTIONS = [
     ("pse", sec_pse, 840, 12000, 3.0),
     ("interaction", sec_interaction, 280, 4000, 0.3),
     ("projector", sec_projector, 840, 12000, 1.0),
+    ("observables", sec_observables, 700, 10000, 3.0),
 ]
